@@ -5,6 +5,7 @@ from sa.forward import Forward
 from sa.dataflow import Poly, cmp_key
 from sa.resolve import walk_function
 
+TECHNIQUE = "static analysis (ast): value-id comparison of the tabular environment's data path and parent configuration with a reference implementation (same normaliser, pandas in-place calls as redefinitions), polynomial check of quote-from-price, CFG / typestate rules for the observation queue"
 EXPLANATION = (
     "Decides necessary structural clauses of C18, far from sufficient for the contents served: (S1) Transmitter.add_prices emits, for every price of every column with only the "
     "missing ones (NaN) dropped, a quote with ask - bid = price x spread and (ask + bid) / 2 = price, stamped with the row's time and the column's contract; _make_transmitter adds "
